@@ -81,6 +81,7 @@ type Scenario struct {
 	NoEmu     bool         `json:"noemu,omitempty"`
 	Sampled   bool         `json:"sampled,omitempty"` // wavefront sampling on, prediction stable: handleWfCompletionEvent path
 	VLimit    int          `json:"vlimit,omitempty"`  // > 0: ComputeUnit.InFlightVectorMemAccessLimit (public field; the builder sets 512)
+	FE        bool         `json:"fe,omitempty"`      // log front-end facts (fetch, issue-time facts, every task end) for CUFrontTrace.tla
 	Sys       string       `json:"sys,omitempty"`     // "" component level; "r9nano": system level
 	Bench     string       `json:"bench,omitempty"`   // system level: a shipped benchmark instead of generated kernels
 	BenchArgs []int        `json:"benchargs,omitempty"`
@@ -193,6 +194,8 @@ func (sc *Scenario) build() (*caseEnv, error) {
 			k, err = c14asm.BuildTable(ks.Progs)
 		case "uniform":
 			k, err = c14asm.BuildUniform(ks.NWf, ks.Body)
+		case "raw":
+			k, err = c14asm.BuildRaw(ks.NWf, ks.Body)
 		default:
 			err = fmt.Errorf("unknown kernel mode %q", ks.Mode)
 		}
@@ -302,6 +305,8 @@ type runner struct {
 	st    *stats
 	mu    sync.Mutex
 	child bool
+	// per-wavefront instruction addresses of the last emulation run
+	emuPCs map[int][]int
 }
 
 func (r *runner) emit(e string, f ab.Rec) {
@@ -336,6 +341,7 @@ func (r *runner) runEmu(ce *caseEnv, idx int) (img *memImage, paths map[int][]st
 	o.paths = paths
 	o.onDone = func(g int) { ce.wgs[g-1].done++ }
 	o.attachEmu(u)
+	r.emuPCs = o.pcs
 	order := make([]*builtWG, len(ce.wgs))
 	copy(order, ce.wgs)
 	sort.SliceStable(order, func(i, j int) bool { return order[i].at < order[j].at })
@@ -460,6 +466,9 @@ func (r *runner) runTiming(ce *caseEnv, idx int, ref *memImage, paths map[int][]
 		for _, b := range ce.wgs {
 			for _, w := range b.wfs {
 				r.emit("Ref", ab.Rec{"w": w, "path": paths[w]})
+				if sc.FE {
+					r.emit("RefPC", ab.Rec{"w": w, "pcs": r.emuPCs[w]})
+				}
 			}
 		}
 	}
@@ -509,6 +518,18 @@ func (r *runner) runTiming(ce *caseEnv, idx int, ref *memImage, paths map[int][]
 		for _, sl := range placed[b] {
 			alloc.used[sl[0]][sl[1]] = false
 		}
+	}
+	if refOK {
+		// a wavefront that has issued more instructions than the reference executed has left the reference path for
+		// good (the trace specification refuses that Issue): the run is stopped there instead of at the cycle limit
+		o.refLen = map[int]int{}
+		for w, p := range paths {
+			o.refLen[w] = len(p)
+		}
+	}
+	if sc.FE {
+		o.fe, o.cu = true, u
+		o.code = func(k *kernels.Wavefront, pc uint64, n int) []byte { return img.read(pc, uint64(n)) }
 	}
 	o.attachTiming(u)
 
@@ -719,6 +740,11 @@ func (r *runner) runTiming(ce *caseEnv, idx int, ref *memImage, paths map[int][]
 			break
 		}
 		cyc = next
+		if o.runaway {
+			r.emit("Panic", ab.Rec{"mode": "timing", "msg": "harness: a wavefront issued more instructions than the reference executed; run stopped"})
+			r.st.Panics++
+			break
+		}
 		if cyc > maxCycle {
 			fmt.Println("INFRA: cycle limit reached in scenario", sc.Name)
 			os.Exit(3)
